@@ -10,7 +10,8 @@ from harness.pool import run_cases
 
 def main():
     rng = random.Random(0)
-    cases = [{"seed": rng.randrange(1 << 30), "n": 40} for _ in range(40)]
+    cases = [{"seed": rng.randrange(1 << 30), "n": 40,
+              "recsubs": sorted(set(rng.sample(range(0, 256), rng.randrange(1, 9)) + ([0] if i % 2 else [])))} for i in range(40)]
     res = run_cases("harness.drv_extras:run_case", cases, jobs=8, timeout=120)
     val = tlc.validate_traces("Trace_Extras", res, cfg="Trace.cfg", jobs=4)
     for r in val.rejects[:10]:
